@@ -45,9 +45,11 @@ FaultOk(c) == /\ (c.target = "load" => c.index <= c.n)
 (* C03 / C15: evaluation outcome classes of a policy, and whether it is installed already *)
 (* sunk-then-fail: an expression one operand of which gets an error that the evaluator sinks (route query   *)
 (* of an AS answered F) and another operand of which fails the evaluation (unknown as-set)                 *)
-EvalClass == {"ok", "unknown-as-set", "error-E", "error-F", "malformed-annotation", "peeras", "aspath-regex", "attr-match", "sunk-then-fail"}
+EvalClass == {"ok", "unknown-as-set", "error-E", "error-F", "malformed-annotation", "peeras", "aspath-regex", "attr-match", "sunk-then-fail",
+              (* the unsupported construct sits in the filter-set the policy names, not in its own expression *)
+              "fset-regex", "fset-peeras", "fset-attr"}
 C03Cases == {[installed |-> i, class |-> c] : i \in BOOLEAN, c \in {"unknown-as-set", "error-E", "error-F", "malformed-annotation",
-                                                                      "peeras", "aspath-regex", "attr-match"}}
+                                                                      "peeras", "aspath-regex", "attr-match", "fset-regex", "fset-peeras"}}
 C15Cases == {q \in UNION {[1..k -> EvalClass \ {"malformed-annotation"}] : k \in 2..3} :
                (\E i \in 1..Len(q) : q[i] # "ok") /\ (\E i \in 1..Len(q) : q[i] = "ok")}
             (* ... and sets none of whose members can be evaluated: the run has other work (an orphan to delete) and *)
